@@ -30,6 +30,9 @@ Definition decode_linput (v : val) : option linput :=
   | VList [VInt 4; x] => option_map LReverse (as_list_of as_pair_str x)
   | VList [VInt 5; x] => option_map LJsonld (as_list_of as_term_entry x)
   | VList [VInt 6; x] => option_map LUpgrade (as_list_of as_pair_str x)
+  (* tag 7: Record objects that have already been through another converter (cached, then extended by a merge): the
+     constructor must judge them by their current contents, i.e. exactly as Converter(records) *)
+  | VList [VInt 7; x] => option_map LRecords (as_records x)
   | _ => None
   end.
 Definition decode_lcase (v : val) : option lcase :=
